@@ -132,4 +132,52 @@ theorem lintFile_leak_witness :
 example : (run toy ⟨false⟩ w0 [.lintFiles [1, 2], .delete 1, .write 3 11, .lintFiles [1, 2, 3]]).2 =
     [["dup 10"], [], [], ["odd 3"]] := by decide +kernel
 
+/-! ## Analyzer state: the obligation that lets `check` be treated as a function of the file -/
+
+section Stateful
+variable {σ G W : Type}
+
+/-- **a forgetful rule reports, for every history and every order of the files, the union of what it reports on each file
+    alone** — this is what lets the orchestrator model treat `check` as a function of the file -/
+theorem forgetful_loop (R : SRule σ G W) (h : R.Forgetful) (s : σ) (fs : List G) :
+    (R.loop s fs).2 = fs.flatMap R.alone := by
+  induction fs generalizing s with
+  | nil => simp [SRule.loop]
+  | cons f fs ih => simp [SRule.loop, ih, h s f, SRule.alone]
+
+theorem forgetful_history_independent (R : SRule σ G W) (h : R.Forgetful) (s s' : σ) (fs : List G) :
+    (R.loop s fs).2 = (R.loop s' fs).2 := by
+  rw [forgetful_loop R h s, forgetful_loop R h s']
+
+theorem forgetful_order_independent (R : SRule σ G W) (h : R.Forgetful) (s s' : σ) (fs fs' : List G) (hp : fs'.Perm fs) :
+    (R.loop s' fs').2.Perm (R.loop s fs).2 := by
+  rw [forgetful_loop R h s, forgetful_loop R h s']
+  exact List.Perm.flatMap_right _ hp
+
+/-- what the seeded changes `C08-r2m1`, `C10-r2m1`, `C11-r3m2`, `C19-r3m1` … did: an analyzer that keeps the names it has
+    learned.  A file is (the alias it declares for the regex module, the name it calls in a loop); the call is reported when the
+    name is a known alias -/
+def leaky : SRule (List Nat) (Nat × Nat) String where
+  init := [0]
+  check := fun known f =>
+    let known' := f.1 :: known          -- never reset
+    (known', if known'.contains f.2 then [s!"regex call through {f.2}"] else [])
+
+/-- … is not forgetful, and its findings depend on the order of the files -/
+theorem leaky_is_order_dependent :
+    (leaky.loop leaky.init [(5, 5), (0, 5)]).2 = ["regex call through 5", "regex call through 5"] ∧
+    (leaky.loop leaky.init [(0, 5), (5, 5)]).2 = ["regex call through 5"] ∧
+    leaky.alone (0, 5) = [] := by decide
+
+/-- the same analyzer with the reset the real code has -/
+def resetting : SRule (List Nat) (Nat × Nat) String where
+  init := [0]
+  check := fun _ f =>
+    let known' := [f.1, 0]
+    (known', if known'.contains f.2 then [s!"regex call through {f.2}"] else [])
+
+example : resetting.Forgetful := fun _ _ => rfl
+
+end Stateful
+
 end ThaiLintModel.C08
